@@ -193,11 +193,10 @@ def run(prop, tier, seed, replay=None):
         if r.get("error"):
             ninc += 1
             rep.inconclusive.append("script %s: %s" % (r["id"], r["error"]))
-            continue
         for v in r["violations"]:
             inp = dict(nodes=nodes, owners=OWNERS, rogue=rogue, scripts=[sc])
             rep.violation(dict(kind=v["kind"], cause=v.get("cause", "")), dict(property=prop, violation=v, input=inp))
-        if len(samples) < 3 and len(sc["steps"]) >= 8 and r.get("trace"):
+        if len(samples) < 3 and len(sc["steps"]) >= 8 and r.get("trace") and not r.get("error"):
             samples.append(dict(script=sc["steps"], real_trace=[e for e in r["trace"] if e["ev"] != "obs"][:16]))
     if ninc <= max(1, len(results) // 100):
         rep.inconclusive = []
@@ -235,7 +234,7 @@ def run(prop, tier, seed, replay=None):
             raise Inconclusive("vacuity: actions never fired in the exhaustive runs: %s (coverage %s)" % (missing, cover))
     need = ["op-create", "op-service", "op-forge", "handle-first-ok", "handle-first-retry", "handle-first-fatal", "handle-replay-ok", "handle-retry-ok", "duplicated"]
     miss = [k for k in need if not stats.get(k)]
-    if miss:
+    if miss and not rep.violations:   # (a violation observed on the real code is reported in any case)
         raise Inconclusive("vacuity: the real runs never showed %s" % miss)
 
     cov = dict(states=states, transitions=transitions, traces_validated_against_impl=acc + len(rej), traces_accepted=acc, traces_rejected=len(rej),
